@@ -155,6 +155,15 @@ func ZZC13Conv() {
 	var steps []step
 	for k := 0; k < H; k++ {
 		ks := strconv.Itoa(k)
+		// the program may also write the globals itself between conversions
+		switch zzChoice("meddle", 4) {
+		case 1:
+			src += "err = false\n"
+		case 2:
+			src += "err = true\n"
+		case 3:
+			src += "errmsg = \"custom\"\n"
+		}
 		if zzChoice("kind", 2) == 0 {
 			c := zzNumCases[zzChoice("numcase", len(zzNumCases))]
 			steps = append(steps, step{true, c})
@@ -221,10 +230,20 @@ func ZZC13Conv() {
 
 // ZZC13Outcome: exit / panic / test outcomes for symbolic arguments.
 func ZZC13Outcome() {
-	kind := zzChoice("kind", 6)
+	kind := zzChoice("kind", 7)
 	p := &zzPlat{}
 	ev := NewEvaluator(p)
 	switch kind {
+	case 6: // test want got msg: a three-argument message is printed as is
+		msgs := []string{"plain", "100% sure", "%v and %d", "a %s b", ""}
+		msg := msgs[zzChoice("msg", len(msgs))]
+		err := ev.Run("test \"a\" \"b\" " + strconv.Quote(msg) + "\n")
+		var te TestErrors
+		zzAssert(err != nil && errors.As(err, &te) && len(te) == 1, "C13 test: a failing three-argument test gives one test error")
+		if len(te) == 1 {
+			zzAssert(te[0].Error() == "line 1 column 10: failed test: want != got: \"a\" != \"b\" ("+msg+")", "C13 test: the message of a three-argument test is printed as is")
+		}
+		zzReach("test-msg")
 	case 0: // exit n
 		n := zzFloat64("n")
 		prog := zzMustParse(ev, "n := 0\nprint \"a\"\nexit n\nprint \"b\"\n", "C13 exit")
